@@ -10,6 +10,7 @@ mod hball;
 mod llp;
 mod pmf;
 mod lab;
+mod prank;
 mod probe;
 mod split;
 mod scc;
@@ -76,6 +77,7 @@ fn main() {
         "ess" => ess::run(seed, count, maxn, &mode, &mut out),
         "pmf" => pmf::run(seed, &mode, &mut out),
         "lab" => lab::run(seed, count, maxn, &mode, &mut out),
+        "prank" => prank::run(seed, count, maxn, &mut out),
         "probe" => probe::run(&mode),
         "cli" => cli::run(seed, count, maxn, &mut out),
         "visit" => visit::run(seed, count, maxn, &mode, &mut out),
